@@ -9,6 +9,8 @@ import (
 	"path/filepath"
 	"regexp"
 	"runtime"
+	"runtime/debug"
+	"runtime/pprof"
 	"sort"
 	"strings"
 	"time"
@@ -58,10 +60,17 @@ func main() {
 	outPath := flag.String("out", "", "output json")
 	trace := flag.Bool("trace", false, "trace")
 	replayPath := flag.String("replay", "", "replay a counterexample file natively")
+	cpuprof := flag.String("cpuprofile", "", "write cpu profile")
 	flag.Parse()
+	if *cpuprof != "" {
+		f, _ := os.Create(*cpuprof)
+		pprof.StartCPUProfile(f)
+		defer pprof.StopCPUProfile()
+	}
 	if *replayPath != "" {
 		os.Exit(replayMain(*replayPath))
 	}
+	debug.SetGCPercent(400)
 	var spec Spec
 	b, err := os.ReadFile(*specPath)
 	if err != nil {
